@@ -33,6 +33,11 @@ fn main() {
             "C05" => generic::c05_replay(subject.as_ref(), &v),
             "C08" => generic::c08_replay(subject.as_ref(), &v),
             "C09" => generic::c09_replay(subject.as_ref(), &v),
+            "C10" => {
+                let cases = c10_cases();
+                let (_, case) = cases.into_iter().find(|(_, c)| c.label == v["case"].as_str().unwrap()).expect("unknown stream case");
+                generic::c10_replay(subject.as_ref(), &case, &v)
+            }
             other => {
                 eprintln!("mc-btor2: cannot replay property {other:?}");
                 std::process::exit(2);
@@ -144,6 +149,11 @@ fn main() {
             c06::run(tier, &mut report);
             c06::RULE.into()
         }
+        "C10" => {
+            generic::c10_streams(&c10_cases(), tier, &mut report);
+            report.traces = report.evaluations;
+            "parser half: BTOR2 documents generated on the fly streamed through the parser at two lengths x chunk sizes x read grains; peak live heap bounded by 8*chunk + 24*max_item + 4 KiB and independent of the length".into()
+        }
         other => {
             eprintln!("mc-btor2: unknown property {other:?}");
             std::process::exit(2);
@@ -151,6 +161,13 @@ fn main() {
     };
     let v = report.to_json(&cli.cmd, "btor2", tier.name(), t0.elapsed().as_secs_f64(), &rule);
     write_out(&cli, &v);
+}
+
+fn c10_cases() -> Vec<(Box<dyn Subject>, generic::StreamCase)> {
+    vec![(
+        Box::new(subjects::Btor2) as Box<dyn Subject>,
+        generic::StreamCase { label: "btor2".into(), prefix: b"1 sort bitvec 8\n".to_vec(), period: b"2 input 1 name ; comment\n3 add 1 2 2\n; a comment line\n4 constd 1 123\n5 justice 3 2 3 4\n".to_vec(), suffix: vec![], max_item: 26 },
+    )]
 }
 
 fn sample_docs(report: &mut Report, kind: &str, docs: &[mc_core::generic::Doc]) {
